@@ -25,6 +25,7 @@ type PropConfig struct {
 	Imports     []string `json:"imports"` // properties whose lemma files are re-proved in the thorough tier
 	Assumptions []string `json:"assumptions"`
 	Explanation string   `json:"explanation"`
+	Level       string   `json:"level"` // the category claimed in MANIFEST.json ("proof" or "other")
 	Bounded     []string `json:"bounded"`
 	Extra       []string `json:"extra"` // extra analyses: "lockset", "metrics", ...
 }
@@ -630,6 +631,10 @@ func cmdCheck(args []string) int {
 	}
 	level := "proof"
 	if nDis != nObl || nObl == 0 {
+		level = "other"
+	}
+	if pc.Level == "other" {
+		// claimed as a weaker level (a discipline check, or a property with a recorded finding)
 		level = "other"
 	}
 	expl := pc.Explanation
